@@ -317,7 +317,7 @@ func checkCRLSet(c CRLSetCase, r *kit.R) {
 }
 
 func TestPropCRLSet(t *testing.T) {
-	kit.Run(t, kit.Spec[CRLSetCase]{ID: "C15", Name: "crlset", Gen: genCRLSet, Check: checkCRLSet, Quick: 10000, Thorough: 60000,
+	kit.Run(t, kit.Spec[CRLSetCase]{ID: "C15", Name: "crlset", Gen: genCRLSet, Check: checkCRLSet, Quick: 8000, Thorough: 40000,
 		Rule: "CRLSet models (0..4 distinct parents from a universe of 11 SPKI hashes x 0..5 serials of 0..255 octets incl. leading zeros and empty; 0..3 BlockedSPKIs; BlockedInterceptionSPKIs; header numbers) written by a harness-side encoder of the Chromium CRLSet format (base64 hashes in the JSON header, binary parents) and parsed by google.Parse; 1..8 queries (listed, same parent other serial, other parent same serial, blocked key, unknown parent). Parsed lists must equal the model; Check(cert, hex hash) != nil iff the hash is blocked or (hash, serial) is listed. Non-trivial: >= 2 parents with at least one reported and one unreported query; distinct by case hash",
 		Assumptions: []string{"the caller passes the lower-case hex SHA-256 of the issuer SPKI (the key format of CRLSet.IssuerLists, and what verifier.go passes)",
 			"parents of a CRLSet are distinct; serials are compared as unsigned integers"}})
@@ -539,7 +539,7 @@ func checkOneCRL(c OneCRLCase, r *kit.R) {
 }
 
 func TestPropOneCRL(t *testing.T) {
-	kit.Run(t, kit.Spec[OneCRLCase]{ID: "C15", Name: "onecrl", Gen: genOneCRL, Check: checkOneCRL, Quick: 5000, Thorough: 30000,
+	kit.Run(t, kit.Spec[OneCRLCase]{ID: "C15", Name: "onecrl", Gen: genOneCRL, Check: checkOneCRL, Quick: 3000, Thorough: 15000,
 		Rule: "OneCRL models (0..10 records over 1..4 issuers from a universe of 10 distinguished names: issuerName+serialNumber records with DER-content serials incl. high-bit and padded ones, subject+pubKeyHash records over RSA/ECDSA/Ed25519 pool keys, enabled flags, details, timestamps) written by a harness-side encoder of the Kinto records JSON and parsed by mozilla.Parse; 1..5 query certificates issued with CreateCertificate (listed, same issuer other serial, other issuer same serial, blocked subject+key, same subject other key, other subject same key). Issuer lists and subject/key records must equal the model; Check != nil iff a record matches (issuer name and serial, or raw subject and SHA-256(SPKI) by the std library). Non-trivial: >= 2 issuers with a reported and an unreported query; distinct by case hash",
 		Assumptions: []string{"distinct issuers have distinct Name.String() forms and single-valued RDNs (the packages key issuer lists by that string)",
 			"queries that match only records with enabled=false are not asserted", "serial numbers are non-negative"}})
@@ -680,8 +680,8 @@ func checkSST(c SSTCase, r *kit.R) {
 }
 
 func TestPropSST(t *testing.T) {
-	kit.Run(t, kit.Spec[SSTCase]{ID: "C15", Name: "sst", Gen: genSST, Check: checkSST, Quick: 4000, Thorough: 25000,
-		Rule: "serialized certificate stores (0..8 certificates issued with CreateCertificate under 1..4 issuers of the name universe, each preceded by 0..2 property elements with ids around 0x20 and 0..40 value octets, end marker) written by a harness-side SST encoder and parsed by microsoft.Parse; 1..5 query certificates (listed, same issuer other serial, other issuer same serial, random). Issuer lists must equal the model; Check != nil iff issuer name and serial are in the store. Non-trivial: >= 2 issuers with a reported and an unreported query; distinct by case hash",
+	kit.Run(t, kit.Spec[SSTCase]{ID: "C15", Name: "sst", Gen: genSST, Check: checkSST, Quick: 2500, Thorough: 12000,
+		Rule:        "serialized certificate stores (0..8 certificates issued with CreateCertificate under 1..4 issuers of the name universe, each preceded by 0..2 property elements with ids around 0x20 and 0..40 value octets, end marker) written by a harness-side SST encoder and parsed by microsoft.Parse; 1..5 query certificates (listed, same issuer other serial, other issuer same serial, random). Issuer lists must equal the model; Check != nil iff issuer name and serial are in the store. Non-trivial: >= 2 issuers with a reported and an unreported query; distinct by case hash",
 		Assumptions: []string{"distinct issuers have distinct Name.String() forms and single-valued RDNs"}})
 }
 
@@ -703,7 +703,7 @@ const (
 	hCutCert              // certificate element holding a truncated certificate
 	hFlipCert             // certificate element with one flipped bit
 	hLenBeyond            // certificate element whose length runs past the end of the file
-	hLenHuge              // certificate element announcing 256 MiB / 768 MiB
+	hLenHuge              // certificate element announcing 80 MiB
 	hTruncate             // file cut at Pos
 	hNoEndMarker          // end marker missing
 	hBadMagic             // wrong magic / version
@@ -798,7 +798,7 @@ func checkHostile(c HostileCase, r *kit.R) {
 }
 
 func TestPropSSTHostile(t *testing.T) {
-	kit.Run(t, kit.Spec[HostileCase]{ID: "C15", Name: "sst-hostile", Check: checkHostile, Quick: 1500, Thorough: 8000,
+	kit.Run(t, kit.Spec[HostileCase]{ID: "C15", Name: "sst-hostile", Check: checkHostile, Quick: 1000, Thorough: 5000,
 		Gen: func(t *rapid.T) HostileCase {
 			elems, _ := genSSTElems(t, genSerialPool(t, false))
 			mut := rapid.IntRange(0, nHostile-1).Draw(t, "mut")
